@@ -1200,6 +1200,7 @@ func selectRules(c *core.Ctx, codecs map[string]method05) {
 			var nonNil []ssa.Value
 			compared := 0
 			var decodeCalls map[*ssa.Call]string
+			var lastDecode *ssa.Call
 			for _, e := range p.Events {
 				last = e
 				switch e.Kind {
@@ -1219,6 +1220,21 @@ func selectRules(c *core.Ctx, codecs map[string]method05) {
 							decodeCalls = map[*ssa.Call]string{}
 						}
 						decodeCalls[call] = n
+						// a further decoder runs only after the previous one has failed on this path
+						if strings.HasSuffix(n, ".Decode") || strings.HasSuffix(n, ").Decode") {
+							if lastDecode != nil {
+								failed := false
+								for _, v := range nonNil {
+									if ex, isE := v.(*ssa.Extract); isE && ex.Tuple == ssa.Value(lastDecode) && ex.Index == 1 {
+										failed = true
+									}
+								}
+								if !failed {
+									dp.problems = append(dp.problems, "a second decoder ("+n+") runs although the first one has not been found to fail on that path: text the first decoder accepts is decoded differently")
+								}
+							}
+							lastDecode = call
+						}
 					}
 				case paths.EvBranch:
 					if k, ok := e.Resolve(e.Cond).(*ssa.Const); ok && k.Value != nil && k.Value.Kind() == constant.Bool {
@@ -1362,6 +1378,30 @@ func selectRules(c *core.Ctx, codecs map[string]method05) {
 			}
 			if found == 0 {
 				problems = append(problems, fmt.Sprintf("number %d (produced for %s) has no case in %s: content encoded by the library cannot be decoded", n, ks[byNum[n][0]].name, pr.decoder))
+			}
+			// every other coding that shares the number is tried when the first decoder fails
+			for _, a := range alts {
+				tried := false
+				for _, dp := range all {
+					if !containsNum(dp.nums, n) {
+						continue
+					}
+					for _, cn := range dp.calls[min(1, len(dp.calls)):] {
+						if cn == load.Module+"/datacoding.("+a+").Decode" {
+							tried = true
+						}
+						if m, has := codecs[a]; has && strings.HasPrefix(cn, gsm7Path+".") {
+							for _, st := range m.stages {
+								if cn == gsm7Path+"."+map[string]string{"Dec": "Decode", "Unpack": "Unpack"}[st.inverse().op] {
+									tried = true
+								}
+							}
+						}
+					}
+				}
+				if found > 0 && !tried {
+					problems = append(problems, fmt.Sprintf("content encoded as %s carries number %d too, but its decoder is never tried when %s fails: such content cannot be decoded", a, n, want))
+				}
 			}
 			c.Decide(len(problems) == 0, "C05-SELECT", key, dpos, fmt.Sprintf("number %d -> %s.Decode(source) first; success returns its output, failure its error", n, want), strings.Join(dedup(problems), "; "))
 		}
